@@ -8,7 +8,7 @@ export REPO=$R
 ./check --build
 for d in seeded/*/; do
   id=$(basename $d); prop=${id%%-*}
-  git -C $R apply $d/patch.diff || { echo "$id: patch does not apply"; continue; }
+  git -C $R apply "$PWD/${d}patch.diff" || { echo "$id: patch does not apply"; continue; }
   t0=$(date +%s)
   ./check $prop $tier > /tmp/seeded_$id.log 2>&1; code=$?
   t1=$(date +%s)
